@@ -26,7 +26,8 @@ MANIFEST = {
     "text": "Proof: in every successful emission each pushN operand satisfies 0 <= v < 256^N and each %push operand 0 <= v < 256^w <= 2^256 "
             "under the final label values, and the bytes written are exactly the big-endian digits of v (no wrap, truncation or sign "
             "conversion is expressible: concretize only returns bytes in range); failure carries no bytes and ingest_file outputs only on "
-            "success. By T-asm (C13) label-dependent operands are decided under the final layout, not the provisional one.",
+            "success. By T-asm (C13) label-dependent operands are decided under the final layout, not the provisional one. WHOLE PROGRAMS (C09_assemble): "
+            "if the assembler model returns bytes, every pushN / %push of the expanded program is in range under the final layout that produced those bytes.",
     "note": "Trusted: Lean kernel; Asm/Assemble.lean (Concretize, push error mapping and deferral, emit_bytecode) tied by the differential "
             "run around every boundary with constant / backward / forward / macro-argument operands; the parse-time check "
             "(ImmediateTooLarge) is modelled in Asm/Parse.lean.",
